@@ -278,6 +278,19 @@ func drawPlugins(t *rapid.T, maxPlugins int, label string) []instPlugin {
 				p.Name += "x"
 			}
 		}
+		if i > 0 && rapid.IntRange(0, 3).Draw(t, fmt.Sprintf("%ssamename%d", label, i)) == 0 {
+			// the same plugin name in another repository: core/db next to acme/db (a plugin is identified by repository AND name)
+			prev := out[rapid.IntRange(0, len(out)-1).Draw(t, fmt.Sprintf("%sprevn%d", label, i))]
+			p.Name = prev.Name
+			if p.Repo == prev.Repo {
+				for _, slug := range repoSlugs {
+					if slug != prev.Repo {
+						p.Repo = slug
+						break
+					}
+				}
+			}
+		}
 		if seen[p.Repo+"/"+p.Name] {
 			continue
 		}
@@ -557,6 +570,12 @@ func resolveProp(r *ev.Rec) func(resolveCase) ev.Outcome {
 			}
 			d := c.DBs[c.Query]
 			table, what = d.Name, fmt.Sprintf("database %s (type %s/%s, version %q)", d.Name, d.Repo, d.Plugin, d.Constraint)
+			for _, q := range c.Plugins {
+				if q.Name == d.Plugin && q.Repo != d.Repo {
+					o.Classes = append(o.Classes, "same_plugin_name_in_another_repository")
+					break
+				}
+			}
 			cons := d.Constraint
 			if cons == "" {
 				cons = "*"
